@@ -163,6 +163,12 @@ func createHtmlAttrs(attrs []html.Attribute) []HtmlAttribute {
 			continue
 		}
 
+		// In foreign content (svg, math) the HTML parser already splits
+		// xmlns:prefix declarations into namespace "xmlns" and key "prefix".
+		if i.Namespace == xmlns {
+			continue
+		}
+
 		if strings.HasPrefix(name, xmlns+":") {
 			continue
 		}
